@@ -1,4 +1,6 @@
 """C08 Potentials and far fields satisfy their PDEs, normalisation and asymptotics."""
+from concurrent.futures import ThreadPoolExecutor
+
 from translators import dispatch, py_kernels
 
 ID = "C08"
@@ -28,7 +30,22 @@ def regen(ctx):
 
 def _run(ctx, strength):
     payload = {"job": "scalar", "strength": strength, "numba": ctx.nb, "table": ctx.table}
-    return ctx.run_impl("c08_impl.py", payload, timeout=3000, threads=4)
+    if strength != "thorough":
+        return ctx.run_impl("c08_impl.py", payload, timeout=3000, threads=4)
+    # thorough: Maxwell potentials / far fields in a second process (own numba compilation)
+    with ThreadPoolExecutor(max_workers=2) as ex:
+        a = ex.submit(ctx.run_impl, "c08_impl.py", payload, 3600, 4)
+        b = ex.submit(ctx.run_impl, "c08_impl.py", {"job": "maxwell", "strength": strength}, 3600, 4)
+        res, mx = a.result(), b.result()
+    if res is None or mx is None:
+        return res
+    res["search"]["evaluations"] += mx["search"]["evaluations"]
+    res["search"]["worst"].update(mx["search"]["worst"])
+    res["failures"] += mx["failures"]
+    res["notes"] += mx["notes"]
+    if "crash" in mx:
+        res["crash"] = mx["crash"]
+    return res
 
 
 def correspond(ctx):
@@ -71,8 +88,14 @@ def search(ctx, strength):
 
 
 def replay(ctx):
+    """Re-run the seeded implementation job that produced the recorded case (thorough set for Maxwell / P1 / segment cases)."""
     regen(ctx)
-    search(ctx, "thorough")
+    txt = str(ctx.replay)
+    thorough = (ctx.replay or {}).get("tier") == "thorough" or "maxwell" in txt or " P1 " in txt or "segment" in txt or \
+        "screen" in txt
+    ctx.tier = "thorough" if thorough else "quick"
+    correspond(ctx)
+    search(ctx, "thorough" if thorough else "quick")
 
 
 META = {
